@@ -3,6 +3,7 @@
 //! paiml/copia CLI and library under a seeded scheduler with fault injection.
 
 pub mod alloc;
+pub mod ext;
 pub mod fs;
 pub mod kernel;
 pub mod rng;
